@@ -99,7 +99,7 @@ def part_scripted(ctx, binp, wd):
         (short if len(json.loads(s)["script"]) < ms else long_).append(s)
     rnd = random.Random(ctx.seed)
     rnd.shuffle(long_)
-    scen = short + long_[:6000 if quick else 100000]
+    scen = short + long_[:6000 if quick else 80000]
     random.Random(ctx.seed + 1).shuffle(scen)
     nchunk = 3 if quick else 10
     per = (len(scen) + nchunk - 1) // nchunk
@@ -132,7 +132,7 @@ def part_real(ctx, binp, wd):
     t0 = time.time()
     quick = ctx.tier == "quick"
     nproc = 3 if quick else 12
-    per = 600 if quick else 8000
+    per = 600 if quick else 6000
     procs = []
     for k in range(nproc):
         tp = os.path.join(wd, "real-%d.ndjson" % k)
